@@ -567,7 +567,7 @@ theorem insert_conserves_compiled {eps : K} (he : eps ≤ 0) (ax : Axis K) (hs :
   cases ha : axisData eps false false ax px with
   | none => rw [ha] at h; exact absurd h (by simp)
   | some a =>
-    rw [ha] at h; simp only [Option.some.injEq] at h; rw [← h]
+    rw [ha] at h; simp only [Option.some.injEq, volIdx_false] at h; rw [← h]
     obtain ⟨hsum, -, -⟩ := axisDataX_weights he ha
     obtain ⟨l0, l1, h0, h1⟩ := axisDataX_indices hs ha
     rw [integral_deposit _ _ _ _ _ (validIdx1 h0 h1), integral_deposit _ _ _ _ _ (validIdx1 l0 l1)]
@@ -575,6 +575,63 @@ theorem insert_conserves_compiled {eps : K} (he : eps ≤ 0) (ax : Axis K) (hs :
     have v2 := hvol _ h0 h1
     field_simp
     linear_combination amount * hsum
+
+/-- the view of the valid cells of a padded array (`data = _data_full[1:-1]`) -/
+def validView (full : Idx → K) : Idx → K := fun c => full (c.map (· + 1))
+
+theorem validView_deposit (full : Idx → K) (t : Idx) (v : K) :
+    validView (deposit full t v) = deposit (validView full) (t.map (· - 1)) v := by
+  funext c
+  unfold validView deposit
+  have : c.map (· + 1) = t ↔ c = t.map (· - 1) := by
+    constructor
+    · intro h
+      rw [← h, List.map_map]
+      exact (List.map_id'' (fun x => by simp) c).symm
+    · intro h
+      rw [h, List.map_map]
+      exact List.map_id'' (fun x => by simp) t
+  simp only [this]
+
+/-- **compiled inserter with ghost cells** (`make_inserter(with_ghost_cells=True)`, 1 axis): when both
+support points are valid cells (always on a periodic axis; between the first and the last centre
+otherwise) the integral over the valid cells grows by exactly `amount` - the volume is looked up
+at the un-shifted index (`volIdx`) -/
+theorem insert_conserves_compiled_ghost {eps : K} (he : eps ≤ 0) (ax : Axis K)
+    (vol full : Idx → K) (px amount : K) (hvol : ∀ i, 0 ≤ i → i < ax.size → vol [i] ≠ 0)
+    (a : AxisData K) (ha : axisData eps true false ax px = some a)
+    (hin : 1 ≤ a.li ∧ a.li ≤ ax.size ∧ 1 ≤ a.hi ∧ a.hi ≤ ax.size)
+    (full' : Idx → K) (h : insertComp1 eps true ax vol full px amount = some full') :
+    integral [ax.size] vol (validView full') = integral [ax.size] vol (validView full) + amount := by
+  unfold insertComp1 at h
+  rw [ha] at h; simp only [Option.some.injEq] at h; rw [← h]
+  obtain ⟨hsum, -, -⟩ := weights_nonneg_sum_one he true false ax px a ha
+  obtain ⟨l0, l1, h0, h1⟩ := hin
+  have e1 : volIdx true ax.size a.li = a.li - 1 := by
+    unfold volIdx; simp only [if_true]; rw [if_neg (by omega), if_neg (by omega)]
+  have e2 : volIdx true ax.size a.hi = a.hi - 1 := by
+    unfold volIdx; simp only [if_true]; rw [if_neg (by omega), if_neg (by omega)]
+  rw [validView_deposit, validView_deposit, e1, e2]
+  simp only [List.map_cons, List.map_nil]
+  rw [integral_deposit _ _ _ _ _ (validIdx1 (by omega) (by omega)),
+    integral_deposit _ _ _ _ _ (validIdx1 (by omega) (by omega))]
+  have v1 := hvol (a.li - 1) (by omega) (by omega)
+  have v2 := hvol (a.hi - 1) (by omega) (by omega)
+  field_simp
+  linear_combination amount * hsum
+
+/-- on a periodic axis the hypothesis about the support points always holds -/
+theorem insert_conserves_compiled_ghost_periodic {eps : K} (he : eps ≤ 0) (ax : Axis K)
+    (hs : 1 ≤ ax.size) (hper : ax.periodic = true)
+    (vol full : Idx → K) (px amount : K) (hvol : ∀ i, 0 ≤ i → i < ax.size → vol [i] ≠ 0) :
+    ∃ full', insertComp1 eps true ax vol full px amount = some full' ∧
+      integral [ax.size] vol (validView full') = integral [ax.size] vol (validView full) + amount := by
+  obtain ⟨a, ha⟩ := Option.isSome_iff_exists.mp (axisData_periodic_isSome eps true false ax hper px)
+  have hin := (indices_in_range_ghost eps false ax hs px a ha).2.2.2.2 hper
+  have hsome : ∃ full', insertComp1 eps true ax vol full px amount = some full' := by
+    unfold insertComp1; rw [ha]; exact ⟨_, rfl⟩
+  obtain ⟨full', h⟩ := hsome
+  exact ⟨full', h, insert_conserves_compiled_ghost he ax vol full px amount hvol a ha hin full' h⟩
 
 /-- **compiled inserter, 2 axes** -/
 theorem insert_conserves_compiled2 {eps : K} (he : eps ≤ 0) (ax ay : Axis K) (hsx : 1 ≤ ax.size)
@@ -589,7 +646,7 @@ theorem insert_conserves_compiled2 {eps : K} (he : eps ≤ 0) (ax ay : Axis K) (
     cases hb : axisData eps false false ay py with
     | none => rw [ha, hb] at h; exact absurd h (by simp)
     | some b =>
-      rw [ha, hb] at h; simp only [Option.some.injEq] at h; rw [← h]
+      rw [ha, hb] at h; simp only [Option.some.injEq, volIdx_false] at h; rw [← h]
       obtain ⟨hsa, -, -⟩ := axisDataX_weights he ha
       obtain ⟨hsb, -, -⟩ := axisDataX_weights he hb
       obtain ⟨al0, al1, ah0, ah1⟩ := axisDataX_indices hsx ha
@@ -624,7 +681,7 @@ theorem insert_conserves_compiled3 {eps : K} (he : eps ≤ 0) (ax ay az : Axis K
       cases hc : axisData eps false false az pz with
       | none => rw [ha, hb, hc] at h; exact absurd h (by simp)
       | some c =>
-        rw [ha, hb, hc] at h; simp only [Option.some.injEq] at h; rw [← h]
+        rw [ha, hb, hc] at h; simp only [Option.some.injEq, volIdx_false] at h; rw [← h]
         obtain ⟨hsa, -, -⟩ := axisDataX_weights he ha
         obtain ⟨hsb, -, -⟩ := axisDataX_weights he hb
         obtain ⟨hsc, -, -⟩ := axisDataX_weights he hc
@@ -666,7 +723,7 @@ theorem insert_interpreted_eq_compiled {eps : K} (he : eps ≤ 0) (ax : Axis K) 
   rw [insertInterp_cell [ax] vol data [px] amount [i] (validIdx1 hi0 hi1),
     sum_corners_prodPhi _ _ (by simp)]
   simp only [List.zipWith_cons_cons, List.zipWith_nil_right, List.map_cons, List.map_nil,
-    List.prod_cons, List.prod_nil, mul_one, deposit_apply, dep1]
+    List.prod_cons, List.prod_nil, mul_one, deposit_apply, volIdx_false, dep1]
   have := hmu i hi0 hi1
   unfold muAxis at this
   rw [this, totalW1]
@@ -691,7 +748,7 @@ theorem insert_interpreted_eq_compiled2 {eps : K} (he : eps ≤ 0) (ax ay : Axis
   rw [insertInterp_cell [ax, ay] vol data [px, py] amount [i, j] (validIdx2 hi0 hi1 hj0 hj1),
     sum_corners_prodPhi _ _ (by simp)]
   simp only [List.zipWith_cons_cons, List.zipWith_nil_right, List.map_cons, List.map_nil,
-    List.prod_cons, List.prod_nil, mul_one, deposit_apply, dep2]
+    List.prod_cons, List.prod_nil, mul_one, deposit_apply, volIdx_false, dep2]
   have h1 := hmua i hi0 hi1
   have h2 := hmub j hj0 hj1
   unfold muAxis at h1 h2
@@ -722,7 +779,7 @@ theorem insert_interpreted_eq_compiled3 {eps : K} (he : eps ≤ 0) (ax ay az : A
       (validIdx3 hi0 hi1 hj0 hj1 hk0 hk1),
     sum_corners_prodPhi _ _ (by simp)]
   simp only [List.zipWith_cons_cons, List.zipWith_nil_right, List.map_cons, List.map_nil,
-    List.prod_cons, List.prod_nil, mul_one, deposit_apply, dep3]
+    List.prod_cons, List.prod_nil, mul_one, deposit_apply, volIdx_false, dep3]
   have h1 := hmua i hi0 hi1
   have h2 := hmub j hj0 hj1
   have h3 := hmuc k hk0 hk1
